@@ -11,6 +11,25 @@ def run(chk, tier):
     g = G.run(tier)
     O.engine_health(chk, g)
     O.c12(chk, g)
+    # the bytes drawn from the OS are the ones used only if they sit in storage private to the call: no function of the
+    # crypt_gensalt_rn closure may reference a mutable static object (C07's census of mutable statics, restricted)
+    from . import c07
+    from ..report import Check
+    chk.rule("R-ENTROPY-PRIVATE", "no function reachable from crypt_gensalt_rn references mutable static storage (the drawn random bytes live in automatic storage)")
+    for flavour in ("shared", "static"):
+        m, info = common.prog(flavour)
+        closure = m.reach([common.sym(m, "crypt_gensalt_rn").name])
+        sub = Check("C12", tier)
+        sub.known = {}
+        c07.globals_rule(sub, m, flavour)
+        n = 0
+        for v in sub.violations:
+            names = {c07.cname(fn) for fn in closure} | set(closure)
+            if any(("'%s'" % nm) in v["message"] for nm in names):
+                chk.fail("R-ENTROPY-PRIVATE", v["instance"], v["message"], v["loc"], v["detail"])
+                n += 1
+        if not n:
+            chk.ok("R-ENTROPY-PRIVATE", flavour, sample={"closure_functions": len(closure)})
     npaths = sum(c["npaths"] for c in g["res"].values())
     chk.note("grid", {"cells": g["ncells"], "abstract_paths": npaths, "engine_wall_s": round(g["wall"], 1), "from_cache": g["cached"],
                       "prefix_classes": sorted({(m["prefix"] or b"<NULL>").decode("latin1") + ("+tail" if m["tail"] else "") for m in g["meta"].values()}),
